@@ -28,7 +28,7 @@ type acc = { mutable ret : string; mutable num : string; mutable cbs : string li
              mutable sends : string list; mutable data : z list; mutable dead : bool; mutable unspec : bool }
 let new_acc () = { ret = "-"; num = "-"; cbs = []; tx = []; sends = []; data = []; dead = false; unspec = false }
 
-let add_out a (o : out) =
+let add_out a (o : out) first =
   (match o.o_ret with
    | Some b -> a.ret <- (if b then "1" else "0"); a.num <- dec_of_z o.o_num
    | None -> ());
@@ -36,7 +36,9 @@ let add_out a (o : out) =
   a.tx <- a.tx @ o.o_tx;
   a.sends <- a.sends @ List.map (fun (n, r) -> dec_of_z n ^ ">" ^ dec_of_z r) o.o_sends;
   a.data <- a.data @ o.o_data;
-  if o.o_dead then a.dead <- true
+  (* "dead" = the operation found the client removed; a removal from inside one of its own
+     callbacks does not make the operation itself dead *)
+  if o.o_dead && first then a.dead <- true
 
 let lst l = if l = [] then "-" else String.concat "," l
 
@@ -59,11 +61,13 @@ let rec exec m (toks : string list) (nested : bool) : unit =
   | name :: args ->
       let a = new_acc () in
       (* one micro-step; reactions run right after a delivered callback *)
+      let nmicro = ref 0 in
       let micro (x : op) : out option =
+        incr nmicro;
         match m.step x with
         | None -> a.unspec <- true; None
         | Some o ->
-            add_out a o;
+            add_out a o (!nmicro = 1);
             List.iter (fun c ->
                 let w = cb_index c in
                 if not (Queue.is_empty reactq.(w)) then exec m (Queue.pop reactq.(w)) true) o.o_cbs;
